@@ -297,3 +297,111 @@ def rule_zcb_rebound(db, chk, cfg, rule="ZCB.rebound"):
             chk.violation(rule, g.qual, g.sig[:40], "this ClipperD::Execute overload does not call CheckCallback before ExecuteInternal: the engine runs with a "
                           "proxy callback that does not follow the user's SetZCallback", g.where, cfg=cfg)
     return n
+
+
+# ---------------------------------------------------------------------------
+# Z.out-point-fresh: a point that is only given new x and y must not carry an old z
+# ---------------------------------------------------------------------------
+
+def _partial_point_writers(db):
+    """{function id: set of parameter indices}: by-reference Point parameters that the function may leave with new x / y and the z they
+    had (it assigns members x / y of the parameter, or hands the parameter on to such a function)."""
+    out = {}
+    cand = []
+    for f in db.funcs:
+        if f.is_pattern or f.body is None:
+            continue
+        for i, p in enumerate(f.params):
+            t = qt(p) or ""
+            if "&" in t and not t.startswith("const") and "Point<" in (dqt(p) or t).replace("Point64", "Point<").replace("PointD", "Point<"):
+                cand.append((f, i, p))
+    for f, i, p in cand:
+        for x in walk(f.body):
+            if x.get("kind") == "BinaryOperator" and x.get("opcode") == "=":
+                l = _u(kids(x)[0])
+                if l.get("kind") == "MemberExpr" and l.get("name") in ("x", "y") and kids(l):
+                    b = _u(kids(l)[0])
+                    if b.get("kind") == "DeclRefExpr" and b.get("referencedDecl", {}).get("id") == p.get("id"):
+                        out.setdefault(f.id, set()).add(i)
+    changed = True
+    while changed:
+        changed = False
+        for f, i, p in cand:
+            if i in out.get(f.id, ()):
+                continue
+            for c in walk(f.body):
+                if c.get("kind") not in ("CallExpr", "CXXMemberCallExpr"):
+                    continue
+                g = db.callee_func(c)
+                if g is None or g.id not in out:
+                    continue
+                for j, a in enumerate(db.call_args(c)):
+                    a0 = _u(a)
+                    if j in out[g.id] and a0.get("kind") == "DeclRefExpr" and a0.get("referencedDecl", {}).get("id") == p.get("id"):
+                        out.setdefault(f.id, set()).add(i)
+                        changed = True
+    return out
+
+
+def rule_out_point_fresh(db, chk, cfg, rule="Z.out-point-fresh"):
+    """[USINGZ] GetSegmentIntersectPt (and whatever hands its out-parameter on to it) gives its result point new x and y only.  The z of
+    a new vertex is then whatever the variable held: the default for a variable declared in the same loop iteration, but the z of an
+    earlier vertex for a variable that lives across iterations of an enclosing loop.  Every call site: the destination is a local
+    declared inside every loop that encloses the call (or the caller's own out-parameter, judged at its callers)."""
+    pw = _partial_point_writers(db)
+    if not pw:
+        raise AnalysisBroken("Z.out-point-fresh: no function that assigns x / y of a by-reference point parameter found")
+    n = 0
+    for f in db.funcs:
+        if f.is_pattern or f.body is None or not f.file or not ("/clipper2/" in f.file or "/Clipper2Lib/src/" in f.file):
+            continue
+        loops = None
+        for c in walk(f.body):
+            if c.get("kind") not in ("CallExpr", "CXXMemberCallExpr"):
+                continue
+            g = db.callee_func(c)
+            if g is None or g.id not in pw:
+                continue
+            for j, a in enumerate(db.call_args(c)):
+                if j not in pw[g.id]:
+                    continue
+                a0 = _u(a)
+                n += 1
+                if a0.get("kind") != "DeclRefExpr":
+                    chk.instance(rule, {"function": f.qual, "call": canon(c)[:60], "destination": canon(a0)[:30], "judged": "not a plain local", "cfg": cfg}, ok=True)
+                    continue
+                did = a0.get("referencedDecl", {}).get("id")
+                if a0.get("referencedDecl", {}).get("kind") == "ParmVarDecl":
+                    chk.instance(rule, {"function": f.qual, "call": canon(c)[:60], "destination": canon(a0), "judged": "caller's out-parameter", "cfg": cfg}, ok=True)
+                    continue
+                if loops is None:
+                    loops = [l for l in walk(f.body) if l.get("kind") in ("ForStmt", "WhileStmt", "DoStmt", "CXXForRangeStmt")]
+                bad = None
+                for l in loops:
+                    inside = any(y is c for y in walk(l))
+                    decl_inside = any(y.get("kind") == "VarDecl" and y.get("id") == did for y in walk(l))
+                    if inside and not decl_inside:
+                        # re-assigned as a whole before the call in the same iteration?  (kept simple: a whole-object assignment that
+                        # precedes the call in the loop body, outside any nested condition)
+                        body = kids(l)[-1]
+                        pre_ok = False
+                        for s0 in (kids(body) if body.get("kind") == "CompoundStmt" else [body]):
+                            if any(y is c for y in walk(s0)):
+                                break
+                            s1 = _u(s0)
+                            if s1.get("kind") in ("BinaryOperator", "CXXOperatorCallExpr") and (s1.get("opcode") == "=" or db.callee(s1)[0] == "operator="):
+                                lhs = _u(kids(s1)[0] if s1.get("kind") == "BinaryOperator" else kids(s1)[1])
+                                if lhs.get("kind") == "DeclRefExpr" and lhs.get("referencedDecl", {}).get("id") == did:
+                                    pre_ok = True
+                        if not pre_ok:
+                            bad = l
+                            break
+                ok = bad is None
+                chk.instance(rule, {"function": f.qual, "call": canon(c)[:60], "destination": canon(a0), "cfg": cfg}, ok=ok)
+                if not ok:
+                    chk.violation(rule, f.qual, "%s|%s" % (g.name, canon(a0)),
+                                  "`%s`: %s writes only x and y of `%s`, which is declared outside the loop at %s that encloses the call - in the "
+                                  "USINGZ build a new vertex then carries the z left in `%s` by an earlier iteration (e.g. the z of an input vertex "
+                                  "copied by a whole-point assignment) instead of the default"
+                                  % (canon(c)[:70], g.name, canon(a0), where(bad), canon(a0)), where(c), cfg=cfg)
+    return n
